@@ -3,6 +3,7 @@
 import Libvna.Model.Scalar
 import Libvna.Gen.Conv2Table
 import Libvna.Driver.VDataDrv
+import Libvna.Model.ConvN
 open Libvna
 
 structure DState where
@@ -24,9 +25,24 @@ def stepConv (args : List String) : String :=
     | _ => "bad-args"
   | _ => "bad-args"
 
+def stepConvN (args : List String) : String :=
+  match args with
+  | fn :: ns :: _mode :: rest =>
+    match ns.toNat?, parseCFs rest with
+    | some n, some vals =>
+      if vals.length != n * n + n then "bad-args" else
+      let m := (vals.take (n * n)).toArray
+      let z0 := (vals.drop (n * n)).toArray
+      match Libvna.ConvN.call CF.abs CF.conj CF.sqa fn m z0 n with
+      | some r => if r.size == 0 then "ok" else "ok " ++ joinHex r.toList
+      | none => "bad-op"
+    | _, _ => "bad-args"
+  | _ => "bad-args"
+
 def step (st : DState) (line : String) : DState × String :=
   match line.trimAscii.toString.splitOn " " with
   | "conv" :: rest => (st, stepConv rest)
+  | "convn" :: rest => (st, stepConvN rest)
   | "vd" :: rest => let (v, o) := Libvna.Drv.stepVd st.vd rest; ({ st with vd := v }, o)
   | _ => (st, "bad-op")
 
